@@ -27,6 +27,9 @@ def main(argv=None):
   if prop == 'SELFTEST':
     from harness import selftest
     return selftest.main(args.tier, seed)
+  if prop == 'EXTRAS':
+    from harness import extras
+    return extras.main(args.tier, seed)
   try:
     mod = importlib.import_module('harness.checks.' + prop.lower())
   except ImportError as e:
